@@ -6,7 +6,8 @@ import MdVerif.Driver.Cursor
 import MdVerif.Driver.Traj
 import MdVerif.Driver.Topo
 import MdVerif.Driver.Writer
-open MdVerif MdVerif.Driver MdVerif.Driver.TrajP MdVerif.Driver.TopoP MdVerif.Driver.WriterP
+import MdVerif.Driver.Sel
+open MdVerif MdVerif.Driver MdVerif.Driver.TrajP MdVerif.Driver.TopoP MdVerif.Driver.WriterP MdVerif.Driver.SelP
 
 def handle (line : String) : String :=
   let ws := (line.splitOn " ").filter (· ≠ "")
@@ -15,6 +16,7 @@ def handle (line : String) : String :=
   | "traj" :: _ | "key" :: _ => handleTraj ws
   | "topsubset" :: _ | "topjoin" :: _ | "toprows" :: _ | "toppdb" :: _ | "topeqhash" :: _ => handleTopo ws
   | "writer" :: _ | "save" :: _ => handleWriter ws
+  | "sel" :: _ => handleSel ws
   | _ => "bad-op"
 
 partial def loop (h : IO.FS.Stream) (out : IO.FS.Stream) : IO Unit := do
